@@ -70,6 +70,7 @@ MAXLEN = 1400
 # every length at which some classifier branch changes its mind, +-1, and 64
 THRESH = (0, 1, 2, 3, 4, 7, 8, 9, 11, 12, 13, 19, 20, 21, 22, 23, 24, 64)
 ALL_LENGTHS = tuple(range(65)) + (65, 127, 128, MAXLEN)
+PLANE_LENGTHS = (1, 2, 8, 12, 19, 20, 22, 23, 64)
 
 B0_QUICK = (0x00, 0x01, 0x02, 0x10, 0x11, 0x12, 0x21, 0x31, 0x41, 0x42, 0x51, 0x63, 0x64, 0x65, 0x81, 0xFF)
 B0_FULL = (0x00, 0x01, 0x02, 0x03, 0x04, 0x10, 0x11, 0x12, 0x21, 0x31, 0x40, 0x41, 0x42, 0x51, 0x61, 0x63, 0x64, 0x65,
@@ -247,18 +248,14 @@ def check_shapes(data: bytes, verdicts: tuple, viols: dict) -> None:
                   f"{impl}, the reference shape says {want}", {"layer": "shape", "data": data.hex()})
 
 
-def check_gate(inner: Inner, data: bytes, verdicts: tuple, direction: str, viols: dict, stats: dict) -> None:
+def judge(inner: Inner, data: bytes, verdicts: tuple, direction: str, emitted: bool, problem: str, viols: dict) -> None:
+    """Compare one observation with the policy gate of the statement (slow path: only called on a mismatch)."""
     bt, ipv8 = verdicts[3], verdicts[4]
     own = data[:22] == inner.prefix
     want = ref.allowed(bt, ipv8, own, inner.flags)
-    emitted, problem = inner.observe(data, direction)
-    cls = ref.shape_class(bt, ipv8, own)
-    stats["outcomes"].add((direction, inner.flag_idx, cls, emitted))
-    stats["emitted" if emitted else "dropped"] += 1
-    if inner.raised:
-        stats["raised"] += 1
     if emitted == want and not (emitted and problem):
         return
+    cls = ref.shape_class(bt, ipv8, own)
     rp = {"layer": "inner", "flags": inner.flag_idx, "dir": direction, "data": data.hex()}
     side = "to the outside" if direction[0] == "o" else "into the tunnel"
     desc = (f"flags {flag_str(inner.flags)}, {direction}, payload {data[:40].hex()}{'..' if len(data) > 40 else ''} "
@@ -270,6 +267,12 @@ def check_gate(inner: Inner, data: bytes, verdicts: tuple, direction: str, viols
               f"allowed packet did not go {side}: {desc} {problem}", rp)
     else:
         _note(viols, f"gate:{direction[:-1]}:altered", f"{desc}: {problem}", rp)
+
+
+def check_gate(inner: Inner, data: bytes, verdicts: tuple, direction: str, viols: dict) -> bool:
+    emitted, problem = inner.observe(data, direction)
+    judge(inner, data, verdicts, direction, emitted, problem, viols)
+    return emitted
 
 
 _SEED = 0
@@ -309,26 +312,39 @@ def run_inner_items(chunk: list) -> list:
                                (B1_FULL if _THOROUGH else B1_QUICK) if b0 is not None else (None,), combos)
                 dirs = DIRS
             elif part == "plane":
-                gen = payloads(tmpl, THRESH, b0, range(256), PLANE_COMBOS)
+                gen = payloads(tmpl, PLANE_LENGTHS, b0, range(256), PLANE_COMBOS)
                 dirs = ("out4", "in4")
             else:   # quick: the whole (byte0, byte1) plane at one length above every threshold, everything else neutral
                 gen = (p for x in range(b0, b0 + 32) for p in payloads(tmpl, (24,), x, range(256), PLANE_COMBOS[:1]))
                 dirs = ("out4", "in4")
             seen: set = set()
             viols: dict = {}
-            stats = {"outcomes": set(), "emitted": 0, "dropped": 0, "raised": 0}
-            n = 0
+            outcomes: set = set()
+            n = n_emitted = n_raised = 0
+            observe, prefix, flags, allowed, ref_verdicts = inner.observe, inner.prefix, inner.flags, ref.allowed, ref.verdicts
             for data in gen:
                 if data in seen:
                     continue
                 seen.add(data)
                 n += 1
                 v = classify(data)
-                check_shapes(data, v, viols)
+                if v != ref_verdicts(data):
+                    check_shapes(data, v, viols)
+                own = data[:22] == prefix
+                want = allowed(v[3], v[4], own, flags)
+                em = 0
                 for d in dirs:
-                    check_gate(inner, data, v, d, viols, stats)
-            out.append((part, n, n * len(dirs), stats["emitted"], stats["dropped"], stats["raised"], stats["outcomes"],
-                        viols))
+                    emitted, problem = observe(data, d)
+                    if emitted:
+                        em += 1
+                    if emitted != want or problem:
+                        if inner.raised:
+                            n_raised += 1
+                        judge(inner, data, v, d, emitted, problem, viols)
+                n_emitted += em
+                outcomes.add((fi, v[3], v[4], own, em))
+            evals = n * len(dirs)
+            out.append((part, n, evals, n_emitted, evals - n_emitted, n_raised, outcomes, viols))
         finally:
             inner.close()
     return out
@@ -411,10 +427,10 @@ DESTS: dict[str, tuple] = {
     "domain-unresolvable": (("nx.example", 80), [], "domain"),
     "null": (("0.0.0.0", 0), [], "null"),
     "ipv4-any-port-5": (("0.0.0.0", 5), [("0.0.0.0", 5)], "ipv4"),
-    "domain->null": (("null.example", 0), [], "after-resolution"),
+    "null-by-resolution": (("null.example", 0), [], "after-resolution"),
 }
 if NULL_HOST is not None:
-    DESTS["numeric-host->null"] = ((NULL_HOST, 0), [], "after-resolution")
+    DESTS["null-by-numeric-host"] = ((NULL_HOST, 0), [], "after-resolution")
 
 SOURCES = ("previous-hop", "same-ip-other-port", "other-ip", "other-ip-same-port", "originator")
 
@@ -650,14 +666,14 @@ def run(ctx: core.Ctx) -> core.Report:
     violations = [core.Violation(k, w, rp) for k, (w, rp) in sorted(viols.items())]
     violations += [core.Violation(k, w, rp) for k, (w, rp) in sorted(outer_viols.items())]
 
-    emitted_classes = sorted({(d, FLAGSETS[f], c) for d, f, c, e in outcomes if e})
+    emitted_classes = [o for o in outcomes if o[4]]
     cov = {
         "evaluations": inner_evals + len(cases),
         "distinct_nontrivial": len(outcomes) + len(outer_obs),
         "rule": "one evaluation = one packet driven through the real TunnelExitSocket of a live exit node under one flag set "
                 "(inner layer: sendto / transport protocol datagram_received called directly; outer layer: one fresh "
                 "world, packet sent through a real 1- or 2-hop circuit and injected from outside); distinct_nontrivial = "
-                "distinct (direction, flag set, shape class, emitted?) outcomes of the inner layer + distinct "
+                "distinct (flag set, classifier bt?, ipv8?, own prefix?, directions emitted) outcomes of the inner layer + distinct "
                 "(shape class, allowed?, sockets opened, emissions, cells back, ...) observations of the outer layer",
         "exhaustive": True,
         "samples": [{"layer": "inner", "item": list(map(str, items[0]))},
@@ -672,7 +688,7 @@ def run(ctx: core.Ctx) -> core.Report:
             "outcome_classes": len(outcomes),
             "emitted_outcome_classes": len(emitted_classes),
             "lengths_grid": list(ALL_LENGTHS if ctx.thorough else THRESH),
-            "lengths_plane": list(THRESH) if ctx.thorough else [24],
+            "lengths_plane": list(PLANE_LENGTHS) if ctx.thorough else [24],
             "byte0_grid": list(B0_FULL if ctx.thorough else B0_QUICK),
             "byte1_grid": list(B1_FULL if ctx.thorough else B1_QUICK),
             "byte0_byte1_plane": "all 65536 pairs",
@@ -720,8 +736,7 @@ def replay(ctx: core.Ctx, data) -> list:  # noqa: ANN001
         raw = bytes.fromhex(data["data"])
         inner = Inner(int(data["flags"]), seed)
         try:
-            stats = {"outcomes": set(), "emitted": 0, "dropped": 0, "raised": 0}
-            check_gate(inner, raw, classify(raw), data["dir"], viols, stats)
+            check_gate(inner, raw, classify(raw), data["dir"], viols)
         finally:
             inner.close()
     else:
